@@ -137,8 +137,9 @@ _RETRY = list(retry_family())
 
 def single_block_family(max_d):
     opts = ["ok", "raise", "gate"]
+    xopts = opts + ["swallow"]      # exit only: `__aexit__` returns True
     for nd in range(0, max_d + 1):
-        for disp in itertools.product(itertools.product(opts, opts), repeat=nd):
+        for disp in itertools.product(itertools.product(opts, xopts), repeat=nd):
             for body in ("ok", "raise", "base", "gate"):
                 g = 0
                 ds = []
